@@ -528,3 +528,26 @@ class ImportRef(object):
 class ModuleRef(object):
     def __init__(self, name):
         self.name = name
+
+
+def consts_for(folder, fn):
+    """A callable resolving dotted global names of fn's module to folded
+    ints (None when the name does not fold to an int)."""
+    mod = fn._module
+    cache = {}
+
+    def lookup(name):
+        if name in cache:
+            return cache[name]
+        try:
+            e = ast.parse(name, mode="eval").body
+            v = folder.eval(e, folder.module_env(mod.name), mod)
+        except (AnalysisError, SyntaxError):
+            v = None
+        if isinstance(v, EnumMember):
+            v = v.value if v.cls.is_int else None
+        if isinstance(v, bool) or not isinstance(v, int):
+            v = None
+        cache[name] = v
+        return v
+    return lookup
